@@ -16,7 +16,7 @@ CHECKS = {
          "reflect/unsafe observe private state; programs beyond the list and resources deeper than the depth bound are not covered"),
  "C04": ("1.4, 2/C04", "stateless model checking of the implementation: preemption-bounded DFS over all interleavings at instrumented scheduling points under a controlled cooperative scheduler; explicit enumeration of Compile and Evaluate call histories and of process-wide call histories (every rotation of a 171-call alphabet, one fresh process each) on the real API; TZ/clock enumeration; plus a labelled free-running -race sample",
          "for 13 scenarios of 2-3 threads sharing compiled expressions and resources every schedule with <= 1-2 (quick) / 2-3 (thorough) preemptions at the instrumented points (function entries, loop iterations, package-variable writes of the CURRENT tree, re-instrumented on every run) is executed to completion and each thread's observation is compared with its isolated observation; every Compile history (<=3/4 calls over 11) and Evaluate history (<=2/3 over 48) is executed and compared with the empty-history outcome and the initial observable state; now()/today()/timeOfDay() under 12 override instants and 4 process time zones",
-         "scheduling points are at function-entry/loop/package-variable granularity: unsynchronised accesses inside a basic block are only seen by the free-running -race pass (a sample, never the deciding step); more than 3 threads / 3 preemptions are not explored; the bound completed is reported per scenario"),
+         "scheduling points are at function-entry/loop/package-variable granularity: unsynchronised accesses inside a basic block are only seen by the free-running -race pass (a sample, never the deciding step); more than 3 threads / 3 preemptions are not explored; the bound completed is reported per scenario; a schedule in which a resumed thread waits on a lock held by a parked thread (sync.Once / Mutex / Map in the code under test) is not feasible at this granularity: it is abandoned, counted (schedules_abandoned_blocked) and never a finding"),
  "C05": ("2/C05", TECH + ": all ordered pairs and triples of a typed value pool x 6 operators; all collection pairs up to a length bound",
          "every ordered pair/triple of the value pool and every collection pair within the bound is evaluated on the real Compile/Evaluate and compared with an independent comparator and with the relational laws on the implementation's own outputs",
          "values outside the pool are not covered; reference comparator (math/big, own date/time component model) is trusted"),
